@@ -1,6 +1,7 @@
 package vc
 
 import (
+	"strings"
 	"go/ast"
 	"go/types"
 )
@@ -52,6 +53,7 @@ func (l heapLval) get(st *State) Term {
 		// memo cell: whatever it holds satisfies the memo predicate (every write is checked against it and
 		// the predicate speaks only about data that is fixed once the object is built)
 		l.e.Ctx.Assume(st.PC, l.e.memoPred(st, pred, l.ref))
+		l.e.Assumed["memo cell "+strings.TrimPrefix(l.key, "F:")+" is assumed to satisfy its predicate when read (writes are checked): an object whose cached value does not match its data - e.g. a struct copy altered afterwards - is outside the contracts"] = true
 		return Select(l.e.heapGet(st, l.key), l.ref)
 	}
 	return Select(l.e.heapGet(st, l.key), l.ref)
